@@ -11,7 +11,7 @@ from props import _generic
 MODULE = "NgoVerif.Props.C09"
 LEVEL = ('Lean: deleting the plain rules of an unobserved predicate is definitional extension read backwards (one-to-one, M3 both directions), observation on the remaining atoms unchanged. The usage scan / position projection / copy unfolding are decisions of unused.py: validated on the real code by the clingo oracle on IN u OUT with costs, under auto-detected and explicit declarations.')
 RULE = ('oracle cases = programs harvested from /repo/tests (inline,regression,unused first) mutations of them and programs of a targeted type-directed generator (harness/tgen.py) under unused only, 5 instances each (empty, small integer/symbolic domains, dense tiny domains, duplicates) over the input predicates; compared: answer sets on IN u OUT + costs; non-trivial = the pass changed the program and at least one instance was compared; distinct by program+flags')
-EXTRA = ['{c}. {b}. a :- c. not a :- b. #show b/0. #show c/0.', '{c(X)} :- d(X). a(X) :- c(X), e(X). not a(X) :- f(X). #show c/1.', 'a(X) :- b(X). b(X) :- c(X). d :- a(1).', 'on :- not not latch. latch :- on, power. {power}.', 'bin(b,5). item(1,2). item(2,3). item(3,4). C = #sum{W,I : pick(B,I,W) : item(I,W)} :- bin(B,C). used(B) :- pick(B,_,_).', 'p(X,Y) :- q(X,Y). q(X,Y) :- r(Y,X). s(X) :- p(X,_). #show s/1.', 'a(X,X) :- b(X,Y). q(P,Q) :- a(P,Q), c(P), c(Q). #show q/2.']
+EXTRA = ['{c}. {b}. a :- c. not a :- b. #show b/0. #show c/0.', '{c(X)} :- d(X). a(X) :- c(X), e(X). not a(X) :- f(X). #show c/1.', 'a(X) :- b(X). b(X) :- c(X). d :- a(1).', 'on :- not not latch. latch :- on, power. {power}.', 'on :- not not latch. latch :- on, power. {power}. #show latch/0.', 'bin(b,5). item(1,2). item(2,3). item(3,4). C = #sum{W,I : pick(B,I,W) : item(I,W)} :- bin(B,C). used(B) :- pick(B,_,_).', 'p(X,Y) :- q(X,Y). q(X,Y) :- r(Y,X). s(X) :- p(X,_). #show s/1.', 'a(X,X) :- b(X,Y). q(P,Q) :- a(P,Q), c(P), c(Q). #show q/2.']
 
 
 def corr(rng, quick):
